@@ -169,7 +169,42 @@ fn follow_up(seed: u64) -> Run {
     Run { world: w, horizon, desc: "follow-up".to_string() }
 }
 
+/// A response that contests the name late in the probing period: the daemon renames and has to
+/// start probing the new name a jitter later - on a silent link, with no interface check to help.
+fn conflict_rename(seed: u64) -> Run {
+    let mut rng = Rng::new(seed);
+    let mut w = World::new(seed);
+    w.set_stepping(Stepping::Lazy);
+    let jitter = *rng.pick(&[0u64, 10, 100, 249]);
+    let h = w.add_host_with(scen::single_v4(), |g| g.jitter = [jitter, 200, 249, 249].into_iter().collect());
+    w.set_ip_check_interval(h, 3600);
+    let _ = w.monitor(h);
+    let t0 = w.now();
+    let addrs: Vec<IpAddr> = vec!["10.0.0.5".parse().unwrap()];
+    let reg = World::reg_info("_t._udp.local.", "contested", "contested-host.local.", &addrs, 80, &[("k", Some(b"v"))]);
+    w.register(h, reg);
+    // anywhere in the probing period, often after the third probe (when no probe timer is left)
+    let at = jitter + if rng.chance(1, 2) { 505 + rng.below(240) } else { 1 + rng.below(745) };
+    w.run_until(t0 + at);
+    let inst = wire::name("contested._t._udp.local");
+    let host = wire::name("contested-host.local");
+    let mut m = Message::response();
+    match rng.below(3) {
+        0 => m.answers.push(wire::srv(&inst, 120, 9999, &wire::name("zzz.local"))),
+        1 => m.answers.push(wire::a(&host, 120, [10, 0, 0, 77])),
+        _ => {
+            m.answers.push(wire::srv(&inst, 120, 9999, &wire::name("zzz.local")));
+            m.answers.push(wire::a(&host, 120, [10, 0, 0, 77]));
+        }
+    }
+    w.inject_msg(h, 2, scen::peer4(77), &m);
+    let horizon = t0 + 12_000;
+    w.run_until(horizon);
+    Run { world: w, horizon, desc: format!("conflict-rename jitter={jitter} at=+{at}") }
+}
+
 pub const SCENARIOS: &[(&str, ScenarioFn)] = &[
+    ("conflict-rename", conflict_rename),
     ("registration", from_c07),
     ("searches", from_c13),
     ("lost-tiebreak", lost_tiebreak),
@@ -471,7 +506,7 @@ fn w2_w3(name: &str, run: &Run, l: &mut Local) {
 pub fn run(report: &Report, tier: &Tier) {
     report.set_rule(
         "paired runs (lazy vs eager 10 ms stepping, same seed and forced jitters) of: registration scenarios (C07), search histories (C13), \
-         a lost probe tiebreak on a silent link, interface-check interval settings {0, 1, 2, 5, 3600, u32::MAX, changed at run time} with \
+         a lost probe tiebreak and a conflicting response (rename) on a silent link, interface-check interval settings {0, 1, 2, 5, 3600, u32::MAX, changed at run time} with \
          an interface appearing, record expiry / goodbye / cache-flush update / verify / stop, PTR-only delivery (follow-up queries); \
          W2/W3 evaluated at every gate of the lazy run with full state snapshots; distinct by (scenario, shape)",
     );
